@@ -265,3 +265,114 @@ pub fn run_fens(args: &Args) {
     }
     out.flush().unwrap();
 }
+
+/// Re-execute the action sequence of a replay file (events: new / push / pop / q / reimp / mir)
+/// on the real Game and record a fresh trace for TLC to judge.
+pub fn run_replay(args: &Args) {
+    let text = std::fs::read_to_string(args.req("script")).unwrap_or_else(|e| {
+        eprintln!("TOOL-ERROR cannot read script: {}", e);
+        std::process::exit(2)
+    });
+    let v: Value = serde_json::from_str(&text).unwrap();
+    let events = v["events"].as_array().cloned().unwrap_or_default();
+    let mut out = open_out(args.req("out"));
+    let mut g: Option<Game> = None;
+    let mut g2: Option<Game> = None;
+    let mut stack: Vec<Move> = vec![];
+    let r: Result<(), String> = (|| {
+        for e in &events {
+            match e["ev"].as_str().unwrap_or("") {
+                "new" => {
+                    let fen = e["fen"].as_str().unwrap_or("").to_string();
+                    stack.clear();
+                    match guard(|| Game::new(&fen))? {
+                        Ok(ng) => {
+                            emit(&mut out, json!({"ev": "new", "fen": obs::chars(&fen), "ok": true, "o": obs::raw(&ng)}));
+                            g = Some(ng);
+                            g2 = guard(|| Game::new(&mirror_fen(&fen)))?.ok();
+                        }
+                        Err(err) => {
+                            emit(&mut out, json!({"ev": "new", "fen": obs::chars(&fen), "ok": false, "err": format!("{}", err)}));
+                            g = None;
+                        }
+                    }
+                }
+                "push" => {
+                    let game = g.as_mut().ok_or("push without game")?;
+                    let t = e["mv"].as_str().unwrap_or("");
+                    let hist = e["hist"].as_bool().unwrap_or(false);
+                    let ps = guard(|| obs::gen(game, false))?;
+                    let m = match ps.iter().find(|m| m.uci_notation() == t) {
+                        Some(m) => *m,
+                        None => guard(|| Move::from_uci_notation(t, game))?.ok_or("unreadable move")?,
+                    };
+                    if hist {
+                        guard(|| game.push_history(m))?;
+                    } else {
+                        guard(|| game.push(m))?;
+                    }
+                    stack.push(m);
+                    emit(&mut out, json!({"ev": "push", "mv": t, "hist": hist, "o": obs::raw(game)}));
+                    if hist {
+                        if let Some(tw) = g2.as_mut() {
+                            let mt = mirror_move_text(t);
+                            if let Some(mm) = guard(|| Move::from_uci_notation(&mt, tw))? {
+                                guard(|| tw.push_history(mm))?;
+                            }
+                        }
+                    }
+                }
+                "pop" => {
+                    let game = g.as_mut().ok_or("pop without game")?;
+                    let m = stack.pop().ok_or("pop without push")?;
+                    guard(|| game.pop(m))?;
+                    emit(&mut out, json!({"ev": "pop", "o": obs::raw(game)}));
+                }
+                "q" => {
+                    let game = g.as_mut().ok_or("query without game")?;
+                    let what = e["what"].as_str().unwrap_or("");
+                    let val = match what {
+                        "lg" => json!(obs::texts(&guard(|| obs::gen(game, true))?)),
+                        "ps" => json!(obs::texts(&guard(|| obs::gen(game, false))?)),
+                        "fen" => obs::chars(&guard(|| game.fen())?),
+                        "dia" => obs::project_display(&guard(|| format!("{}", game))?),
+                        "rt" => {
+                            let lg = guard(|| obs::gen(game, true))?;
+                            let mut rt = vec![];
+                            for m in &lg {
+                                let t = m.uci_notation();
+                                let back = guard(|| Move::from_uci_notation(&t, game))?;
+                                rt.push(json!([t, back.map(|b| b == *m).unwrap_or(false)]));
+                            }
+                            json!(rt)
+                        }
+                        _ => json!(null),
+                    };
+                    emit(&mut out, json!({"ev": "q", "what": what, "val": val, "o": obs::raw(game)}));
+                }
+                "reimp" => {
+                    let game = g.as_mut().ok_or("reimp without game")?;
+                    let fen = guard(|| game.fen())?;
+                    match guard(|| Game::new(&fen))? {
+                        Ok(mut n) => {
+                            let lg2 = guard(|| obs::gen(&mut n, true))?;
+                            emit(&mut out, json!({"ev": "reimp", "ok": true, "o": obs::raw(&n), "lg": obs::texts(&lg2)}));
+                        }
+                        Err(err) => emit(&mut out, json!({"ev": "reimp", "ok": false, "err": format!("{}", err)})),
+                    }
+                }
+                "mir" => {
+                    if let Some(tw) = g2.as_ref() {
+                        emit(&mut out, json!({"ev": "mir", "o": obs::raw(tw)}));
+                    }
+                }
+                _ => {}
+            }
+        }
+        Ok(())
+    })();
+    if let Err(msg) = r {
+        emit(&mut out, json!({"ev": "panic", "msg": msg, "root": "replay"}));
+    }
+    out.flush().unwrap();
+}
